@@ -3,6 +3,19 @@
 # Confirms in a scratch worktree: patch applies+builds, full suites pass with it, demo fails with / passes without.
 set -u
 SRC="$1"; NAME="$2"; PKG="${3:-.}"
+# the tests of the demonstration, by name; its package directory from the package clause when not given
+RUN="^($(grep -ho '^func Test[A-Za-z0-9_]*' "$SRC/demo_test.go" | sed 's/^func //' | paste -sd'|'))\$"
+if [ "$PKG" = "." ]; then
+  case "$(grep -m1 '^package' "$SRC/demo_test.go" | awk '{print $2}')" in
+    http|http_test) PKG=http ;;
+    corazawaf|corazawaf_test) PKG=internal/corazawaf ;;
+    seclang|seclang_test) PKG=internal/seclang ;;
+    operators|operators_test) PKG=internal/operators ;;
+    transformations|transformations_test) PKG=internal/transformations ;;
+    bodyprocessors|bodyprocessors_test) PKG=internal/bodyprocessors ;;
+    auditlog|auditlog_test) PKG=internal/auditlog ;;
+  esac
+fi
 WT=/tmp/confirm-$NAME
 LOG=/verif/.work/confirm-$NAME.log
 mkdir -p /verif/.work
@@ -12,11 +25,11 @@ cd $WT
 {
 echo "== demo WITHOUT patch"
 cp "$SRC/demo_test.go" $PKG/zz_seed_demo_test.go
-go test -count=1 -run 'Seed|seed|Demo' ./$PKG/ 2>&1 | tail -3; echo "demo_without_rc=$?"
-go test -count=1 ./$PKG/ -run 'Seed|seed|Demo' >/dev/null 2>&1; echo "DEMO_WITHOUT=$?"
+go test -count=1 -run "$RUN" ./$PKG/ 2>&1 | tail -3; echo "demo_without_rc=$?"
+go test -count=1 ./$PKG/ -run "$RUN" >/dev/null 2>&1; echo "DEMO_WITHOUT=$?"
 git apply "$SRC/patch.diff" || { echo "APPLY_FAIL"; }
 echo "== demo WITH patch"
-go test -count=1 ./$PKG/ -run 'Seed|seed|Demo' >/dev/null 2>&1; echo "DEMO_WITH=$?"
+go test -count=1 ./$PKG/ -run "$RUN" >/dev/null 2>&1; echo "DEMO_WITH=$?"
 rm -f $PKG/zz_seed_demo_test.go
 echo "== full suite WITH patch"
 go build ./... ; echo "BUILD=$?"
